@@ -330,7 +330,8 @@ int tokens_get(AsmContext *asm_context, char *token, int len)
     // Nasty, but some CPU's like Z80 need this
     if (ch == '\'')
     {
-      if (asm_context->can_tick_end_string && token_type == TOKEN_STRING)
+      if (asm_context->can_tick_end_string && token_type == TOKEN_STRING &&
+          ptr < len - 1)
       {
         token[ptr++] = ch;
         break;
@@ -340,14 +341,16 @@ int tokens_get(AsmContext *asm_context, char *token, int len)
     if (ch == '.' && ptr != 0 &&
         token_type == TOKEN_STRING &&
         asm_context->strings_have_dots &&
-        token_is_not_number(token, ptr))
+        token_is_not_number(token, ptr) &&
+        ptr < len - 1)
     {
       token[ptr++] = ch;
       continue;
     }
 
     if (ch == '/' && ptr != 0 &&
-        token_type == TOKEN_STRING && asm_context->strings_have_slashes)
+        token_type == TOKEN_STRING && asm_context->strings_have_slashes &&
+        ptr < len - 1)
     {
       token[ptr++] = ch;
       continue;
@@ -362,6 +365,14 @@ int tokens_get(AsmContext *asm_context, char *token, int len)
         ch = tokens_get_char(asm_context);
 
         if (ch == '"') { break; }
+
+        // The quote can follow a token that already fills the buffer.
+        if (ptr >= len - 1)
+        {
+          print_error(asm_context, "Unterminated quote");
+          asm_context->error_count++;
+          break;
+        }
 
         if (ch == '\\')
         {
